@@ -25,9 +25,10 @@ def extract(cfg):
     return lines[-1]
 
 
-def load(fdir):
+def load(fdir, inline_depth=0):
     t = time.time()
     prog = Program(fdir)
+    prog.inline_depth = inline_depth
     prog.slicer = Slicer(prog)
     prog.narrow = Slicer(prog, narrow=True)
     stats = {'crates': len(prog.crates), 'bodies': len(prog.fns),
@@ -37,6 +38,52 @@ def load(fdir):
              'basic_blocks': sum(len(f.blocks) for f in prog.fns.values()),
              'call_sites': sum(len(f.calls) for f in prog.fns.values()),
              'load_s': round(time.time() - t, 1)}
+    return prog, stats
+
+
+def run_rules(mod, prog, rep, tier, cfg):
+    try:
+        mod.run(prog, rep, tier, cfg)
+    except AnchorMissing as e:
+        rep.anchor_missing('anchor', e)
+    except Exception as e:      # a rule that cannot evaluate the tree fails closed, naming where it stopped
+        import traceback
+        tb = traceback.extract_tb(e.__traceback__)
+        last = [fr for fr in tb if '/props/' in fr.filename] or list(tb)
+        fr = last[-1]
+        rep.ob('engine', 'rule-evaluation:%s' % os.path.basename(fr.filename), False,
+               'the rules could not be evaluated on this tree (%s: %s at %s:%d `%s`); treated as a failure' % (type(e).__name__, e, os.path.basename(fr.filename), fr.lineno, (fr.line or '')[:120]))
+
+
+def evaluate(pid, mod, fdir, rep, tier, cfg):
+    """Evaluate the property's rules on the program, and re-evaluate the obligations that fail on the equivalent programs
+    obtained by inlining workspace helpers (depth 1, 2): an obligation is violated only if it fails on every form."""
+    prog, stats = load(fdir)
+    n0 = len(rep.obligations)
+    run_rules(mod, prog, rep, tier, cfg)
+    mine = rep.obligations[n0:]
+    from report import load_known
+    known = load_known()
+    def failing():
+        return [o for o in mine if not o['ok'] and not (known.get((pid, o['rule'], o['key'].split('@')[0])) or {}).get('status') == 'known']
+    if failing() and os.environ.get('BA_NO_INLINE') != '1':
+        for depth in (1, 2):
+            bad = failing()
+            if not bad:
+                break
+            prog2, _ = load(fdir, inline_depth=depth)
+            rep2 = Report(pid, tier, rep.level)
+            rep2.config = cfg
+            run_rules(mod, prog2, rep2, tier, cfg)
+            by = {}
+            for o in rep2.obligations:
+                by.setdefault((o['rule'], o['key']), []).append(o)
+            for o in bad:
+                alt = by.get((o['rule'], o['key']))
+                if alt and all(a['ok'] for a in alt):
+                    o['ok'] = True
+                    o['detail'] = '%s [fails on the source as written, holds on the equivalent program with workspace helpers inlined to depth %d: accepted]' % (o['detail'][:200], depth)
+                    rep.note('%s %s: holds with helpers inlined (depth %d)' % (o['rule'], o['key'], depth))
     return prog, stats
 
 
@@ -54,27 +101,13 @@ def main():
     for cfg in configs:
         fdir = extract(cfg)
         fdirs.append(fdir)
-        prog, stats = load(fdir)
-        all_stats[cfg] = stats
         rep.config = cfg
-        try:
-            mod.run(prog, rep, tier, cfg)
-        except AnchorMissing as e:
-            rep.anchor_missing('anchor', e)
-        except Exception as e:      # a rule that cannot evaluate the tree fails closed, naming where it stopped
-            import traceback
-            tb = traceback.extract_tb(e.__traceback__)
-            last = [fr for fr in tb if '/props/' in fr.filename] or list(tb)
-            fr = last[-1]
-            rep.ob('engine', 'rule-evaluation:%s' % os.path.basename(fr.filename), False,
-                   'the rules could not be evaluated on this tree (%s: %s at %s:%d `%s`); treated as a failure' % (type(e).__name__, e, os.path.basename(fr.filename), fr.lineno, (fr.line or '')[:120]))
-        if cfg != 'quick':
-            # obligations of extra configurations are keyed apart
-            pass
+        prog, stats = evaluate(pid, mod, fdir, rep, tier, cfg)
+        all_stats[cfg] = stats
     if tier == 'thorough' and os.environ.get('BA_NO_AUDIT') != '1':
         import audit
         t = time.time()
-        res = audit.run_audit(pid, mod, load)
+        res = audit.run_audit(pid, mod, evaluate)
         res['wall_s'] = round(time.time() - t, 1)
         rep.extra['sensitivity_audit'] = res
         print('   sensitivity audit: %d break patches detected, %d missed, %d refactors silent, %d false alarms on refactors, %d stale (%.0fs)' % (
